@@ -84,6 +84,8 @@ func init() {
 			return []Instance{
 				{Scenario: "c09_regets", Params: mustJSON(struct{}{}), Bound: 0, Shards: 2, Note: "one discovery object asked three times while the numbering changes (dynamic membership through the bus)"},
 				{Scenario: "c09_getrace", Params: mustJSON(struct{}{}), Bound: 0, Shards: 2, Note: "a renumbering announced at every scheduling point of a running Get(): the result is the chunk of the old or of the new numbering"},
+				{Scenario: "c10_sd", Params: mustJSON(struct{}{}), Bound: 0, Shards: 4, Note: "leader-assigned numbering: at every instant members that agree on the group size hold distinct numbers (also after a failed Rebalance RPC in steady state)"},
+				{Scenario: "c10_first", Params: mustJSON(FirstParams{Two: true}), Bound: 0, Note: "two numberings announced before the first Get(): the partition is derived from the latest"},
 				{Scenario: "c09_window", Params: mustJSON(struct{}{}), Bound: 0, Shards: 8, Note: "1..3 renumberings inside / outside one rebalance delay window of a real stream: the re-opened stream covers the chunk of the last numbering"},
 			}
 		},
